@@ -466,6 +466,7 @@ func (c *Collection) bindFast(invokeFunc any, initFunc any) error {
 		initF = newProvider(initFunc, -1, c.name+" initialization func")
 	}
 
+	verifYield("bind-rlock")
 	debugLock.RLock()
 	defer debugLock.RUnlock()
 	return doBind(c, invokeF, initF, true)
